@@ -6,7 +6,7 @@
 namespace photospline{
 
 double divdiff(const double *x, const double *y, size_t n);
-unsigned int factorial(unsigned int n);
+double factorial(unsigned int n);
 double convoluted_blossom(const double *x, size_t nx, const double *y, size_t ny,
                           double z, const double *bags, size_t nbags);
 
@@ -72,7 +72,7 @@ void splinetable<Alloc>::convolve(const uint32_t dim, const double* conv_knots, 
 	const uint32_t k = order[dim] + 1;
 	const uint32_t q = n_conv_knots - 1;
 	
-	double norm = ((double)(factorial(q)*factorial(k-1)))/((double)factorial(k+q-1));
+	double norm = (factorial(q)*factorial(k-1))/factorial(k+q-1);
 	
 	std::unique_ptr<float[]> coefficients(new float[arraysize]);
 	std::fill_n(coefficients.get(),arraysize,0.f);
